@@ -342,8 +342,13 @@ def sym_str(x="", *a):
             return x
         raise Unsupported("str() of symbolic bytes")
     if isinstance(x, SymInt):
-        if x.hi - x.lo < 64:
-            v = E.cur().choose_value(x.t, "str(int)")
+        if x.hi - x.lo < 128:
+            # small ranges are concretised (forked) so that the digits can be joined into keys; the path condition
+            # may leave far fewer values than the static interval
+            try:
+                v = E.cur().choose_value(x.t, "str(int)", limit=64)
+            except Unsupported:
+                return Opaque("DecStr", [x])
             if v >= (1 << (x.w - 1)):
                 v -= 1 << x.w
             return _b.str(v)
